@@ -301,7 +301,7 @@ ADDED = {
     "C07": " (R5) the value score_and_assign returns is never kept as a per-grain count; fight_over_peaks derives the counts from the final label array after all grains competed.",
     "C08": " (R8) unitcell.getanglehkls drops its ring-number keyed cache whenever makerings may have renumbered the rings (the validity test compares a stamp makerings rewrites, and B).",
     "C09": " (R8) grain.__init__ copies the translation it is given (refinepositions stores refined positions in place, so grains must not share the array).",
-    "C10": " R2 also shows that the tensor an object returns does not depend on which tensors it was asked for before (memo tables / cached decompositions).",
+    "C10": " R2 also shows that the tensor an object returns does not depend on which tensors it was asked for before (memo tables / cached decompositions). R5: in TensorMap every tensor_crystal_to_sample / tensor_sample_to_crystal call is applied to a map in the frame the function converts from, with self.U as the rotation (the defect F17, fixed by 7a264cb, was found by it).",
     "C12": " R1 requires the field compared in a min / max update to be the field updated and the value taken to be the value compared.",
     "C14": " R3 requires the int8 mask tests of mask_to_coo to be (in)equalities with zero (sign-agnostic), decides the merge kernels by finite case analysis over the key orderings, and checks the last run of compress_duplicates semantically.",
     "C15": " R2 is a path property on the flow graph (every path to the renumbering passes 'latest sweep count == 0') and requires that the edge arrays are never rebound between sweeps.",
